@@ -103,6 +103,8 @@ pub struct GenOpts {
     pub faults: bool,
     pub misuse: bool,
     pub per_iteration: bool,
+    /// obstacle-free worlds (exact optimality / completeness oracles of C17, C18)
+    pub free: bool,
 }
 
 pub fn build_table(r: &mut Sm, o: &GenOpts) -> Scenario<TState, TableSpace> {
@@ -117,7 +119,8 @@ pub fn build_table(r: &mut Sm, o: &GenOpts) -> Scenario<TState, TableSpace> {
             } else if j > i || !symmetric {
                 let mut v = *r.pick(&vals);
                 if r.chance(0.01) {
-                    v = f64::INFINITY;
+                    // "very far" (an infinite entry would make one motion check need usize::MAX steps)
+                    v = 50.0;
                 }
                 if r.chance(0.003) {
                     v = f64::NAN;
@@ -150,7 +153,7 @@ pub fn build_table(r: &mut Sm, o: &GenOpts) -> Scenario<TState, TableSpace> {
     // validity checkers
     let mut valids = vec![];
     for _ in 0..2 {
-        let v: Vec<bool> = (0..k).map(|i| if i == 0 { r.chance(0.92) } else { r.chance(0.75) }).collect();
+        let v: Vec<bool> = (0..k).map(|i| o.free || if i == 0 { r.chance(0.92) } else { r.chance(0.75) }).collect();
         valids.push(v);
     }
     let checkers: Vec<Arc<LogChecker<TState>>> = valids
@@ -419,11 +422,17 @@ where
     let mut checkers = vec![];
     let mut obs_desc = vec![];
     for vi in 0..2u32 {
-        let boxes = gen_boxes(r, obst_dim, obst_lo, obst_hi);
+        let mut boxes = gen_boxes(r, obst_dim, obst_lo, obst_hi);
+        if o.free {
+            boxes.clear();
+        }
         // "speckle": additionally reject a pseudo-random 1/m of all states, pointwise by bit
         // pattern - a state that was stored without being queried is then invalid with
         // probability 1/m, independently of its neighbours
-        let speckle: Option<u64> = if r.chance(0.35) { Some(*r.pick(&[8u64, 16, 32])) } else { None };
+        let mut speckle: Option<u64> = if r.chance(0.35) { Some(*r.pick(&[8u64, 16, 32])) } else { None };
+        if o.free {
+            speckle = None;
+        }
         obs_desc.push(J::obj(vec![
             ("boxes", J::Arr(boxes.iter().map(|b| b.json()).collect())),
             ("speckle_modulus", speckle.map(|m| J::Int(m as i128)).unwrap_or(J::Null)),
